@@ -335,7 +335,6 @@ def check_C10(pid, tier, seed, verdict):
 
 
 # ------------------------------------------------------------------------------------- C12 / C13
-POOL_C13_WHY = ("a request was served on a closed session",)
 POOL_C13_DEV = ("SessionNeverReturnedToPool",)
 
 
@@ -347,18 +346,20 @@ def _pool(pid, tier, seed, verdict):
     res = V.run_trace(pid, "Trace_Pool.tla", "Trace_Pool.cfg", run["trace"])
     c13 = pid == "C13"
     mine = dict(res)
-    mine["bad"] = [b for b in res["bad"] if (b["why"] in POOL_C13_WHY) == c13 or b["why"] == "a task panicked"]
+    mine["bad"] = [b for b in res["bad"] if pid in b["why"].split(":")[0].split("+") or not b["why"].startswith(("C12", "C13"))]
     mine["devs"] = [d for d in res["devs"] if (d["dev"] in POOL_C13_DEV) == c13]
     verdict.add_trace_result("pool", mine, run)
     cnt = res["cnt"]
-    V.log(f"[{pid}] trace: {cnt['scn']} histories, {cnt['st']} reaper/second states, {cnt['get']} gets, {cnt['cserved']} client "
+    V.log(f"[{pid}] trace: {cnt['scn']} histories, {cnt['st']} reaper/second states, {cnt['get']} gets, {cnt['cserved'] + cnt.get('cres', 0)} client "
           f"requests, bad({pid})={len(mine['bad'])} devs({pid})={len(mine['devs'])}")
     cov = _cov(mcs, cnt["scn"], cnt["nontrivial"],
                "scenario = (API level, virtual time) one random history of 6-30 operations on a real SessionPool with real client "
                "Sessions on in-memory transports: sessions with 0-2 open streams entering the map, gets, external deaths, peer "
                "FINs, 1-3 s advances, settings CI 1-3 s, IT 1-5 s, MI 0-2, state sampled every virtual second; or (client level, "
                "real time, reaper 200 ms / timeout 500 ms) sequential requests, two long-lived streams across reaper ticks and a "
-               "session count after a quiet period through the real Client and server; non-trivial = histories in which at least "
+               "session count after a quiet period through the real Client and server; or (client level, reaper out of reach) 6-14 "
+               "steps of sequential requests / bursts of 2-3 overlapping requests / destinations the server cannot reach / external "
+               "session deaths, dials counted by a relay in front of the server; non-trivial = histories in which at least "
                "one reaper state, get or served request was judged", V.sample_descrs(run["descr"]), True,
                dict(trace_events=res["lines"], event_counts=cnt))
     return cov, ["API-level histories are random (seeded), not TLC-generated: Pool.tla's Request/StreamDone/Die/Tick are replayed "
